@@ -291,6 +291,11 @@ def check_json(spec):
                 seen.add(k)
                 fails.append(("json-carries-every-header-value", k, "%s.%s = %r (%s) is %r in the JSON" % (sec, mn, value, vt, J)))
         data = doc.get("data") if isinstance(doc, dict) else None
+        # nothing but this file's curves and sections (state must not leak from an earlier to_json() in the process)
+        if isinstance(data, dict) and set(data.keys()) != set(session):
+            fails.append(("json-holds-exactly-this-file's-curves", kfile, "data keys %r, session mnemonics %r" % (sorted(data.keys()), session)))
+        if isinstance(md, dict) and set(md.keys()) != set(las.sections.keys()):
+            fails.append(("json-holds-exactly-this-file's-sections", kfile, "metadata keys %r, sections %r" % (sorted(md.keys()), sorted(las.sections.keys()))))
         for i, c in enumerate(spec["curves"]):
             k = "json;curve=%s%s;nan=%d;dupname=%d" % (c["kind"], "(object-array)" if c.get("objarr") else "", int(None in c["vals"]), int(session[i] != c["mn"]))
             try:
